@@ -45,6 +45,10 @@ type hdGen struct {
 	tag       int
 	dropped   []int // connections whose session may still be resumable
 	nb        int   // configured backends
+	// two-tenant cases: backend -> connection of the one internal client that announced "start-dialout" for it.
+	// The server picks the dial-out client of a backend by walking a Go map, so with two connected ones the
+	// choice is not determined; a case has at most one per backend (ever, so a resume cannot make a second).
+	dial map[int]int
 }
 
 func (g *hdGen) pickConn() int {
@@ -236,6 +240,16 @@ func (g *hdGen) apiOp(bk int) hdOp {
 	if g.opts.perms && r.chance(50) {
 		x = 3
 	}
+	if g.opts.twoTenants && r.chance(14) {
+		// a dial-out request: well-formed most of the time; never while the backend's dial-out client is busy
+		// with a held-back creation (it could not answer before the request times out)
+		o.Api = "dialout"
+		o.R = 1 + r.intn(9)
+		if dc, have := g.dial[bk]; r.chance(15) || (have && g.blocked[dc]) {
+			o.Tag = 1 + r.intn(3)
+		}
+		return o
+	}
 	switch x {
 	case 0:
 		o.Api = "delete"
@@ -345,7 +359,12 @@ func (g *hdGen) hello(c int) hdOp {
 			feat = append(feat, ClientFeatureInternalInCall)
 		}
 		if r.chance(20) {
-			feat = append(feat, ClientFeatureStartDialout)
+			if _, have := g.dial[bk]; !g.opts.twoTenants || !have {
+				feat = append(feat, ClientFeatureStartDialout)
+				if g.opts.twoTenants {
+					g.dial[bk] = c
+				}
+			}
 		}
 		if tok == 0 && bk < 2 {
 			g.auth[c] = bk
@@ -529,7 +548,7 @@ func (g *hdGen) op() hdOp {
 }
 
 func hdGenCase(r *vrng, id int, opts hdGenOpts, n int) *hdCase {
-	g := &hdGen{r: r, opts: opts, blocked: map[int]bool{}, auth: map[int]int{}, intern: map[int]bool{}, rsOf: map[int]int{}, rsBackend: map[int]int{}}
+	g := &hdGen{r: r, opts: opts, blocked: map[int]bool{}, auth: map[int]int{}, intern: map[int]bool{}, rsOf: map[int]int{}, rsBackend: map[int]int{}, dial: map[int]int{}}
 	c := &hdCase{Id: id, Mode: 1, Backends: []hdBackendCfg{{}, {}}}
 	g.nb = 2
 	if opts.v2 && r.chance(40) {
@@ -572,6 +591,18 @@ func hdGenCase(r *vrng, id int, opts hdGenOpts, n int) *hdCase {
 		for b := 0; b < 2; b++ {
 			if r.chance(70) {
 				c.Ops = append(c.Ops, hdOp{K: "api", B: b, SignAs: b, R: 1 + r.intn(2), Api: "incallall", InCall: 1})
+			}
+		}
+		if opts.twoTenants {
+			// dial-out clients (internal clients that announced "start-dialout", in no room), for one tenant, both or none
+			for b := 0; b < 2; b++ {
+				if r.chance(45) {
+					g.next++
+					i := g.next
+					g.conns = append(g.conns, i)
+					c.Ops = append(c.Ops, hdOp{K: "connect", C: i, Addr: 1 + r.intn(3)}, hdOp{K: "hello", C: i, Ht: "internal", B: b, Feat: []string{ClientFeatureStartDialout}})
+					g.auth[i], g.intern[i], g.dial[b] = b, true, i
+				}
 			}
 		}
 	}
